@@ -8,6 +8,12 @@ def showO : Option Nat → String
   | some v => toString v
   | none => "none"
 
+/-- The specification of C25 *is* a map per coroutine (`Model/Local.lean` is nothing else): an answer
+that differs from the map's is a violation on this very history, not merely a disagreement. -/
+def notMap (o io expect : String) : List String :=
+  if io == expect ∨ io == "" then [] else
+    [s!"[not-map-like] `{o}` answered {io}; a map holding exactly what this coroutine stored under that key answers {expect}"]
+
 def drive (body impl : String) : Verdict :=
   let ops := splitTrim body "|"
   let outs := splitTrim impl "|"
@@ -21,22 +27,22 @@ def drive (body impl : String) : Verdict :=
       let (c, k) := (c.toNat?.getD 0, k.toNat?.getD 0)
       if c ∈ s.dead then (s, mouts ++ ["dead"], made, fails, labels) else
       let r := step s (.put c k i)
-      (r.1, mouts ++ [showO r.2], made ++ [i], fails, (if r.2.isSome then "put.overwrite" else "put.fresh") :: labels)
+      (r.1, mouts ++ [showO r.2], made ++ [i], fails ++ notMap o io (showO r.2), (if r.2.isSome then "put.overwrite" else "put.fresh") :: labels)
     | ["get", c, k] =>
       let (c, k) := (c.toNat?.getD 0, k.toNat?.getD 0)
       if c ∈ s.dead then (s, mouts ++ ["dead"], made, fails, labels) else
       let r := step s (.get c k)
-      (r.1, mouts ++ [showO r.2], made, fails, (if r.2.isSome then "get.hit" else "get.miss") :: labels)
+      (r.1, mouts ++ [showO r.2], made, fails ++ notMap o io (showO r.2), (if r.2.isSome then "get.hit" else "get.miss") :: labels)
     | ["gms", c, k] =>
       let (c, k) := (c.toNat?.getD 0, k.toNat?.getD 0)
       if c ∈ s.dead then (s, mouts ++ ["dead"], made, fails, labels) else
       let r := step s (.getMutSet c k i)
-      (r.1, mouts ++ [if r.2.isSome then "ok" else "none"], made ++ [i], fails, (if r.2.isSome then "gms.hit" else "gms.miss") :: labels)
+      (r.1, mouts ++ [if r.2.isSome then "ok" else "none"], made ++ [i], fails ++ notMap o io (if r.2.isSome then "ok" else "none"), (if r.2.isSome then "gms.hit" else "gms.miss") :: labels)
     | ["rm", c, k] =>
       let (c, k) := (c.toNat?.getD 0, k.toNat?.getD 0)
       if c ∈ s.dead then (s, mouts ++ ["dead"], made, fails, labels) else
       let r := step s (.remove c k)
-      (r.1, mouts ++ [showO r.2], made, fails, (if r.2.isSome then "rm.hit" else "rm.miss") :: labels)
+      (r.1, mouts ++ [showO r.2], made, fails ++ notMap o io (showO r.2), (if r.2.isSome then "rm.hit" else "rm.miss") :: labels)
     | ["drop", c] =>
       let c := c.toNat?.getD 0
       let had := (s.store.filter (fun e => e.1.1 == c)).length
